@@ -59,6 +59,7 @@ type protoSrv struct {
 	db   database.Database
 	mdb  *memdb.MemDB
 	proj [2]*types.Project // 0: RemoveOnDetach=false (default project), 1: RemoveOnDetach=true
+	flt  *faultDB          // C05: fault-injecting proxy around Backend.DB (pass-through unless armed)
 }
 
 var protoS *protoSrv
@@ -120,6 +121,9 @@ func protoServer() *protoSrv {
 	}
 	ctx := context.Background()
 	s := &protoSrv{svr: svr, db: svr.Backend().DB}
+	// C05: the server talks to the store through the proxy; the harness's own reads (s.db) bypass it
+	s.flt = &faultDB{Database: s.db}
+	svr.Backend().DB = s.flt
 	s.cli = v1connect.NewYorkieServiceClient(http.DefaultClient, "http://"+svr.RPCAddr())
 	huge := int64(1) << 40
 	def, err := svr.DefaultProject(ctx)
@@ -195,6 +199,9 @@ type protoTrace struct {
 	atts    map[[2]int]int
 	unknown map[string]string // c99 / d99 -> random hex
 	last    *protoResp
+	fault   faultReport   // C05: what the armed fault did during the last request
+	window  bool          // C05: some fault of this trace fired in the lost-checkpoint window under a request with changes
+	epochs  map[int]int64 // C10: last seen epoch per document index
 }
 
 type protoResp struct {
@@ -266,6 +273,9 @@ func (t *protoTrace) keyStr(k int) string {
 }
 
 func (t *protoTrace) actorName(a time.ActorID) string {
+	if a == time.InitialActorID { // actor of the compacted change (Model/ServerCompact.lean initialActorNo)
+		return "c1000000"
+	}
 	if i, ok := t.cact[a.String()]; ok {
 		return fmt.Sprintf("c%d", i)
 	}
@@ -405,6 +415,7 @@ var protoMsgKinds = [][2]string{
 	{"document not found", "documentNotFound"},
 	{"change not found", "changeNotFound"},
 	{"find documents for detachment", "internal"},
+	{faultMsg, "internal"},
 }
 
 var protoCodeKinds = map[string]string{
@@ -625,7 +636,13 @@ func (t *protoTrace) exec(c *Ctx, line string) (string, string) {
 	case "LOG":
 		di := protoRef(toks[1])
 		t.logOracles(c, di)
+		t.logOracles10(c, di)
+		t.logOracles05(c, di)
 		return line, t.showLog(di)
+	case "CP":
+		return line, t.execCP(c, toks)
+	case "FLT":
+		return line, t.execFLT(c, toks)
 	case "ACT":
 		res, err := t.s.cli.ActivateClient(ctx, protoReq(t, &api.ActivateClientRequest{
 			ClientKey: fmt.Sprintf("ck-%s-%d", t.nonce, len(t.cids))}))
@@ -718,6 +735,7 @@ func (t *protoTrace) exec(c *Ctx, line string) (string, string) {
 		}
 		before := t.storedStatus(ci, di)
 		heads := t.heads()
+		pre10 := t.pre10(ci, di)
 		var resPack *api.ChangePack
 		var rerr error
 		switch toks[0] {
@@ -757,6 +775,10 @@ func (t *protoTrace) exec(c *Ctx, line string) (string, string) {
 				resPack = res.Msg.ChangePack
 			}
 		}
+		t.fault = t.s.flt.disarm()
+		if t.fault.inWindow() && protoArg(toks, "chg") != "-" && protoArg(toks, "chg") != "" {
+			t.window = true
+		}
 		r := &protoResp{client: -1, doc: -1}
 		if rerr != nil {
 			r.err = protoErrKind(rerr)
@@ -772,6 +794,7 @@ func (t *protoTrace) exec(c *Ctx, line string) (string, string) {
 		}
 		t.last = r
 		t.afterRequest(c, toks[0], ci, di, heads, &before, r, honest, toks)
+		t.post10(c, toks[0], ci, di, pre10, r, toks)
 		return line, t.showResp(r, false)
 	}
 	return line, "bad-op"
@@ -1057,7 +1080,9 @@ type protoOpts struct {
 
 var protoOrc = "all"
 
-func protoOrcOn(p string) bool { return protoOrc == "all" || protoOrc == p }
+func protoOrcOn(p string) bool {
+	return protoOrc == "all" || protoOrc == p || strings.Contains("+"+protoOrc+"+", "+"+p+"+")
+}
 
 func o04(c *Ctx, f string, a ...any) {
 	if protoOrcOn("c04") {
@@ -1100,6 +1125,9 @@ func protoParseOpts(c *Ctx) protoOpts {
 	protoOrc = o.orc
 	return o
 }
+
+// protoMaxSteps > 0 shortens the schedules of protoSchedule (set only by the compact/faults engines)
+var protoMaxSteps = 0
 
 type protoRun struct {
 	c  *Ctx
@@ -1318,6 +1346,9 @@ func protoSchedule(c *Ctx, s *protoSrv, malformed bool) {
 	}
 	exchanged := map[int]map[int]bool{}
 	steps := 10 + r.Intn(40)
+	if protoMaxSteps > 0 { // engines `compact`/`faults`: short base histories (same PRNG consumption)
+		steps = 3 + steps%protoMaxSteps
+	}
 	for k := 0; k < steps; k++ {
 		sc := cl[r.Intn(len(cl))]
 		key := r.Intn(nKeys)
